@@ -355,7 +355,7 @@ def t_load_pairing(world, prefix='C04.i'):
         Ev = [e for e in flat_events(r['events']) if e[0] == 'call']
         def one(pat, what):
             c = [e for e in Ev if re.search(pat, e[1])]
-            if len(c) != 1: ob.structural(f'{len(c)} calls of {what} on an accepting path', 'pairing:' + what, {'trace': [short(e[1]) for e in Ev]}); return None
+            if len(c) != 1: ob.shape(len(c), 1, f'{len(c)} calls of {what} on an accepting path', 'pairing:' + what, {'trace': [short(e[1]) for e in Ev]}); return None
             return c[0]
         g = one(r'core::slice::<impl \[.*\]>::get::<usize>$|::get::<usize>$', 'remaining_accounts.get'); tf = one(r'AccountLoader.*::try_from$', 'AccountLoader::try_from')
         ld = one(r'AccountLoader.*::load$', 'load'); n_ = one(r'get_remaining_accounts_per_bank$', 'get_remaining_accounts_per_bank')
@@ -413,7 +413,7 @@ def t_load_pairing(world, prefix='C04.i'):
         Ev = [e for e in flat_events(r['events']) if e[0] == 'call']
         if ob3.witness(eng3, r, [okc]) is False: continue
         me = [e for e in Ev if '::map::<' in e[1]]; ce = [e for e in Ev if '::collect::<' in e[1]]
-        if len(me) != 1 or len(ce) != 1: ob3.structural(f'{len(me)} map / {len(ce)} collect calls', 'pairing:chain'); continue
+        if len(me) != 1 or len(ce) != 1: ob3.shape(min(len(me), len(ce)), 1, f'{len(me)} map / {len(ce)} collect calls', 'pairing:chain'); continue
         me, ce = me[0], ce[0]
         flt = eng3.deref_val(me[2][0])
         ob3.queries += 1
